@@ -55,6 +55,17 @@ def reaches_local_read(F, root):
     return any(agg_sites(b, "read_actor::ReadCmd") for b in F.group_bodies(root))
 
 
+def serves_locally(F, t):
+    """the call reads the local state machine or hands the read to the ReadActor"""
+    k = strip_generics(callee_key(t) or "")
+    if re.search(SM_READ, k):
+        return True
+    for tg in F.resolve_targets(t):
+        if F.fn_reaches(tg, lambda x: re.search(SM_READ, strip_generics(x)) is not None, 4) or any(agg_sites(gb, "read_actor::ReadCmd") for gb in F.group_bodies(tg)):
+            return True
+    return False
+
+
 def run(ctx):
     F = ctx.F
     crates = ("d_engine_core", "d_engine_server")
@@ -84,7 +95,14 @@ def run(ctx):
         if key in seen or len(chain) > 6:
             return
         seen.add(key)
-        ok, _w, _ = guarded_by(b, bi, lambda c: flag_true(F, c), edge_conditions(b))
+        conds = edge_conditions(b)
+        ok, _w, _ = guarded_by(b, bi, lambda c: flag_true(F, c), conds)
+        if not ok:
+            # the order of `policy matches ..` and `flag` in one condition is irrelevant: what matters is that every
+            # call in this function that serves locally, downstream of the dispatch, is under flag == true
+            reach, _p = b.reach_from(bi)
+            cons = [x for x, t in b.calls() if x in reach and x != bi and serves_locally(F, t)]
+            ok = bool(cons) and all(guarded_by(b, x, lambda c: flag_true(F, c), conds)[0] for x in cons)
         if ok:
             guarded.append((root, b, bi, chain))
             return
